@@ -467,34 +467,48 @@ class Program:
                 outs.add(fn)
         return outs, (None if outs else fn)
 
+    def site_targets(self, body, t):
+        """local bodies a call terminator may reach: (direct targets, callback targets, external name)"""
+        tg, ext = self.call_targets(body, t)
+        cb = set()
+        c = callee_of(t)
+        for a in t["args"]:
+            ac = op_const(a)
+            if ac and "fn" in ac:
+                r = ac.get("res") or ac["fn"]
+                if r in self.bodies:
+                    cb.add(r)
+                else:
+                    m = re.match(r"^(.*)::([A-Za-z_0-9]+)$", ac["fn"])
+                    if m:
+                        for iid in self.trait_impls.get((m.group(1), m.group(2)), []):
+                            cb.add(iid)
+        if c is not None and not (c.get("res") in self.bodies):
+            cb |= self._callback_edges(c)
+        return tg, cb, ext
+
+    def call_sites(self, bid):
+        """[(block, terminator, direct targets, callback targets)] of one body"""
+        self.callgraph()
+        return self._sites.get(bid, [])
+
     def callgraph(self):
         if self._cg is not None:
             return self._cg
         cg = {}
+        self._sites = {}
         self.ext_calls = defaultdict(set)
         for bid, body in self.bodies.items():
             outs = set()
+            sites = []
             for bi, t in body.calls():
-                tg, ext = self.call_targets(body, t)
+                tg, cb, ext = self.site_targets(body, t)
                 outs |= tg
+                outs |= cb
+                sites.append((bi, t, tg, cb))
                 if ext:
                     self.ext_calls[bid].add(ext)
-                c = callee_of(t)
-                # callbacks: fn items / closures passed as arguments
-                for a in t["args"]:
-                    ac = op_const(a)
-                    if ac and "fn" in ac:
-                        r = ac.get("res") or ac["fn"]
-                        if r in self.bodies:
-                            outs.add(r)
-                        else:
-                            m = re.match(r"^(.*)::([A-Za-z_0-9]+)$", ac["fn"])
-                            if m:
-                                for iid in self.trait_impls.get((m.group(1), m.group(2)), []):
-                                    outs.add(iid)
-                # external generic callee instantiated with local types: callback traits
-                if c is not None and not (c.get("res") in self.bodies):
-                    outs |= self._callback_edges(c)
+            self._sites[bid] = sites
             # closures created here run (at the latest) under this function's callers
             for cid in self.closures_of.get(bid, []):
                 outs.add(cid)
@@ -539,24 +553,78 @@ class Program:
         "std::io::Write": ["write", "flush"],
     }
 
+    # which callback traits an external generic callee may invoke on its type arguments, by callee family
+    # (first matching pattern wins; an unknown callee gets every non-serde/regex trait)
+    FMT = {"std::fmt::Display", "std::fmt::Debug"}
+    CMP = {"std::cmp::PartialEq", "std::cmp::PartialOrd", "std::cmp::Ord", "std::hash::Hash"}
+    CONV = {"std::convert::From", "std::convert::Into"}
+    ITER = {"std::iter::Iterator", "std::iter::FromIterator", "std::iter::IntoIterator"}
+    FAMILIES = [
+        (r"(^std::fmt::|^core::fmt::|::to_string$|write_fmt$|as std::fmt::(Display|Debug)>::fmt$|^std::fmt::format$)", FMT | {"std::string::ToString"}),
+        (r"(::clone$|::cloned$|::to_owned$|::to_vec$|::into_owned$|::clone_from$)", {"std::clone::Clone"}),
+        (r"(::hash$|::hash_slice$)", {"std::hash::Hash"}),
+        (r"(::eq$|::ne$|::contains$|::starts_with$|::ends_with$|::dedup$|::position$)", {"std::cmp::PartialEq"}),
+        (r"(::cmp$|::partial_cmp$|::lt$|::le$|::gt$|::ge$|::max$|::min$|::sort|::binary_search|::is_sorted)", {"std::cmp::PartialEq", "std::cmp::PartialOrd", "std::cmp::Ord"}),
+        (r"^(std::collections::(HashSet|HashMap|hash_set|hash_map)|dashmap::)", {"std::hash::Hash", "std::cmp::PartialEq", "std::clone::Clone"}),
+        (r"^(std::collections::(BTreeMap|BTreeSet|btree_map|btree_set)::(?!iter|keys|values|len|is_empty|new))", {"std::cmp::Ord", "std::cmp::PartialOrd", "std::cmp::PartialEq", "std::default::Default"}),
+        (r"as std::ops::Deref(Mut)?>::deref(_mut)?$", set()),
+        (r"as std::ops::Index(Mut)?>::index(_mut)?$", set()),
+        (r"(::len$|::is_empty$|::iter$|::iter_mut$|::keys$|::values$|::push$|::pop$|::as_ref$|::as_mut$|::as_str$|::as_bytes$|::as_slice$|::get$|::get_mut$|::first$|::last$|::new$|::with_capacity$|::is_some$|::is_none$|::is_ok$|::is_err$|::unwrap$|::expect$|::unwrap_or$|::ok$|::err$|::take$|::remove$|::insert$|::swap_remove$|::truncate$|::clear$|::reserve$|::into_raw$|::from_raw$|::is_null$|::borrow$|::borrow_mut$|::new_uninit$|box_assume_init_into_vec_unsafe$|::must_use$|::extend_from_slice$)", set()),
+        (r"(as std::ops::Try>::branch$|as std::ops::FromResidual>::from_residual$|::into$|::from$|::try_into$|::try_from$|::map_err$)", CONV | {"std::convert::TryFrom"}),
+        (r"(::default$|::unwrap_or_default$|::or_default$)", {"std::default::Default"}),
+        (r"(^std::iter::|^core::iter::|as std::iter::Iterator>::|as std::iter::IntoIterator>::into_iter$|::collect$|::extend$|::from_iter$|^<I as std::iter::IntoIterator>)", ITER | {"std::iter::Extend", "std::default::Default", "std::cmp::Ord", "std::cmp::PartialEq", "std::hash::Hash", "std::clone::Clone"}),
+        (r"^std::io::", {"std::io::Read", "std::io::Write"}),
+    ]
+
+    def family_traits(self, callee):
+        for rx, traits in self.FAMILIES:
+            if re.search(rx, callee):
+                return traits
+        return None
+
+    SERDE_SER = ("serde::Serialize",)
+    SERDE_DE = ("serde::Deserialize", "serde::de::Visitor")
+
     def _callback_edges(self, c):
         """an external generic function instantiated with local types may call those types'
-        impls of the callback traits"""
+        impls of the callback traits (serde and regex callbacks only from serde / regex callees)"""
         outs = set()
+        callee = strip_generics(c.get("res") or c["fn"])
+        is_ser = callee.startswith(("serde::ser", "serde::Serializer", "serde_json::to_", "serde_json::ser", "serde::Serialize"))
+        is_de = callee.startswith(("serde::de", "serde::Deserializer", "serde_json::from_", "serde_json::de", "serde::Deserialize"))
+        is_rx = callee.startswith("regex::")
+        fam = None if (is_ser or is_de or is_rx) else self.family_traits(callee)
+        if fam is not None and not fam:
+            return outs
         targs = c.get("targs", [])
         if not targs:
             return outs
-        txt = " ".join(targs)
+        txt = re.sub(r"\{[^{}]*(\{[^{}]*\}[^{}]*)*\}", "", " ".join(targs))  # drop fn-item / closure paths
         if "haystack::" not in txt and "c_api::" not in txt and "poscontrol" not in txt:
             return outs
         for im in self.impls:
             tr = im.get("trait")
             if tr not in self.CALLBACK_TRAITS:
                 continue
+            if tr in self.SERDE_SER and not is_ser:
+                continue
+            if tr in self.SERDE_DE and not is_de:
+                continue
+            if tr == "regex::Replacer" and not is_rx:
+                continue
+            if fam is not None and tr not in fam:
+                continue
             adt = im.get("self_adt")
-            if not adt or adt not in txt:
+            if not adt or not re.search(re.escape(adt) + r"(?![A-Za-z0-9_:])", txt):
                 continue
             names = self.CALLBACK_TRAITS[tr]
+            if tr in ("std::convert::From", "std::convert::Into", "std::convert::TryFrom"):
+                # only the conversion whose source type takes part in this instantiation
+                m = re.search(r" as std::convert::(?:Try)?(?:From|Into)<(.*)>>$", im.get("trait_ref", ""))
+                if m:
+                    src = re.sub(r"&'[a-z_]+ ", "&", m.group(1))
+                    if src not in re.sub(r"&'[a-z_]+ ", "&", txt):
+                        continue
             for it in im["items"]:
                 if (names is None or it["name"] in names) and it["id"] in self.bodies:
                     outs.add(it["id"])
